@@ -3,9 +3,41 @@ package main
 import (
 	"bytes"
 	"crypto/rand"
+	"encoding/json"
+	"sync"
 
 	cose "github.com/veraison/go-cose"
 )
+
+var priorKeyOnce sync.Once
+var priorKeyVal []byte
+
+// priorKeyBytes: a P-256 private key restricted to verification, with a key id and a base IV
+func priorKeyBytes() []byte {
+	priorKeyOnce.Do(func() {
+		k, err := cose.NewKeyFromPrivate(keyFor("p256-b"))
+		if err != nil {
+			fatal("prior key: %v", err)
+		}
+		k.ID, k.Ops, k.BaseIV = []byte("prior"), []cose.KeyOp{cose.KeyOpVerify}, []byte{9, 9}
+		priorKeyVal, err = k.MarshalCBOR()
+		if err != nil {
+			fatal("prior key: %v", err)
+		}
+	})
+	return priorKeyVal
+}
+
+func keyProj(k *cose.Key) J {
+	ops := []any{}
+	for _, o := range k.Ops {
+		ops = append(ops, int(o))
+	}
+	_, serr := k.Signer()
+	_, verr := k.Verifier()
+	return J{"type": int(k.Type), "alg": int(k.Algorithm), "id": rawJ(k.ID), "ops": ops, "baseiv": rawJ(k.BaseIV), "params": projectPairs(k.Params),
+		"signer": errClass(serr), "verifier": errClass(verr)}
+}
 
 func init() {
 	// keydec: offer bytes to Key.UnmarshalCBOR and exercise everything reachable from an accepted key
@@ -78,6 +110,28 @@ func init() {
 				try("verify", func() { _ = verifier.Verify([]byte("msg"), bytes.Repeat([]byte{1}, 64)) })
 			}
 		}
+		// an earlier key decoded into a variable and copied by value stays what it was when the variable is decoded into again, and the
+		// verdict on the bytes does not depend on what the destination held before
+		ev["priorstable"], ev["usedacc"], ev["usedre"] = true, ev["acc"], ev["re"]
+		try("used-destination", func() {
+			var kv cose.Key
+			if e2 := kv.UnmarshalCBOR(priorKeyBytes()); e2 != nil {
+				fatal("keydec: prior key does not decode: %v", e2)
+			}
+			snap := kv
+			before, _ := json.Marshal(keyProj(&snap))
+			e3 := kv.UnmarshalCBOR(b)
+			after, _ := json.Marshal(keyProj(&snap))
+			ev["priorstable"] = bytes.Equal(before, after)
+			ev["usedacc"] = e3 == nil
+			if e3 == nil {
+				if re, e4 := kv.MarshalCBOR(); e4 == nil {
+					ev["usedre"] = ints(re)
+				} else {
+					ev["usedre"] = []int{}
+				}
+			}
+		})
 		if panics == nil {
 			panics = []any{}
 		}
